@@ -23,6 +23,7 @@ both must fire there (a rule that cannot fire passes vacuously forever).
 from __future__ import annotations
 
 import ast
+from sa.models import dotted_name
 import os
 from typing import Dict, List, Set
 
@@ -295,6 +296,34 @@ def check_shared_state(ctx: Ctx, files: List[str]):
     findings, n = _scan(ctx.index, ctx.summ, relfiles, scope)
     for rule, file, func, construct, msg, line in findings:
         ctx.bad(rule, file, func, construct, msg, line)
+    # a memoised factory: functools.lru_cache / cache on a function of the anchor files that BUILDS an object (calls a class or a
+    # callable it was handed) returns the same mutable object to every later call with equal arguments -- whatever that object
+    # accumulated (identifier tables, stores) is carried from one call into the next
+    for m in ctx.index.modules.values():
+        if m.relpath not in relfiles:
+            continue
+        for fn in ast.walk(m.tree):
+            if not isinstance(fn, (ast.FunctionDef, ast.AsyncFunctionDef)):
+                continue
+            memo = [d for d in fn.decorator_list if (dotted_name(d.func if isinstance(d, ast.Call) else d) or "").split(".")[-1] in ("lru_cache", "cache")]
+            if not memo:
+                continue
+            params = {a.arg for a in list(fn.args.posonlyargs) + list(fn.args.args) + list(fn.args.kwonlyargs)}
+            builds = None
+            for r in ast.walk(fn):
+                if isinstance(r, ast.Return) and isinstance(r.value, ast.Call):
+                    f_ = r.value.func
+                    root = f_
+                    while isinstance(root, ast.Attribute):
+                        root = root.value
+                    callee = dotted_name(f_) or ""
+                    if (isinstance(root, ast.Name) and root.id in params) or callee.split(".")[-1][:1].isupper():
+                        builds = r
+            if builds is not None:
+                ctx.bad("G.1", m.relpath, fn.name, f"@{ast.unparse(memo[0])[:40]} def {fn.name}(...) -> {ast.unparse(builds.value)[:50]}",
+                        f"{fn.name} is memoised and returns an object it builds (`{ast.unparse(builds.value)[:70]}`): every later call with equal "
+                        f"arguments receives the SAME object, with whatever state (identifier tables, stores, accumulated entries) the "
+                        f"earlier calls left in it", fn.lineno)
     # G.3 on the summaries the rules used (helpers spliced in: a helper that fills a list it is handed is local state there)
     ctx.rule("G.3", "no in-place change of an argument (aliasing / input mutation)", 1)
     n3 = 0
